@@ -12,6 +12,17 @@ CLAIMS = {
              "NAME comparison used in arbitration is tied by the C04 model/correspondence.",
         technique="Lean 4 theorems over source-regenerated definitions (omega after bit-op normal forms) + translator self-validation",
         design="§8 C15"),
+    'C12': dict(
+        text="Proof (Lean 4) about the ECU core model (timer list, subscriber list, one pass of the background loop, callbacks that add/remove "
+             "timers, subscribe/unsubscribe and take time): not-early, wake-up covers the earliest deadline, no drift / once per period, "
+             "remove_timer/unsubscribe remove every registration, never called while unregistered, one-shot removed, every due timer is served "
+             "in the pass (no suppression), independence; all for every reachable state (invariant WF proved preserved), every time and every "
+             "callback table.  The model is tied to electronic_control_unit.py by lock-step differential execution (1200 / 20000 histories).",
+        note="Proved for the code as repaired by the three fix: commits (D7, D8, D9 — see known_findings.json). Trusted: Lean kernel; the "
+             "correspondence is sampling; periods > 0; callbacks behave as scripted; the DLL part of the pass is idle in this model (C07/C09 "
+             "cover it); floating-point time is replaced by exact microseconds.",
+        technique="Lean 4 invariant proofs over a hand-written model + lock-step correspondence with the real ECU under a virtual clock",
+        design="§8 C12"),
 }
 
 NOT_YET = {}
